@@ -632,8 +632,7 @@ Proof.
   split; [exact H|]. unfold e2e_snapshot. rewrite H. reflexivity.
 Qed.
 
-(* the recorded defect of /repo's ipoe restore path: a half-established restored session owns nothing and
-   coexists with a PPPoE session *)
+(* before /repo d2827a3: a half-established restored ipoe session owned nothing and coexisted with a PPPoE session *)
 Lemma restart_skipping_witness :
   let w := e2e_run Repaired world0 [EDiscover e2e_k] in
   e2e_snapshot (e2e_restart_skipping Repaired [e2e_k] w) e2e_k = (1%nat, 0%nat, None) /\
